@@ -127,7 +127,10 @@ def build_bp(cat):
         m = types.ModuleType(name)
         m.__vf_source__ = emit_source(cat)
         sys.modules[name] = m
-        exec(compile(m.__vf_source__, "<shapes:%s>" % cat.name, "exec"), m.__dict__)
+        from . import procstate
+
+        with procstate.class_creation():
+            exec(compile(m.__vf_source__, "<shapes:%s>" % cat.name, "exec"), m.__dict__)
         _BP_CACHE[cat.name] = m
     return m
 
